@@ -1,7 +1,7 @@
 package main
 
 func init() {
-	addMutant(mutant{Name: "fd/deleterange-head-arg-off-by-one", Fire: []string{"FD-01"},
+	addMutant(mutant{Name: "fd/deleterange-head-arg-off-by-one", Fire: []string{"FD-09"},
 		Edits: []edit{{"wal.go", "		return w.truncateHeadLocked(max + 1)", "		return w.truncateHeadLocked(max)"}}})
 	addMutant(mutant{Name: "fd/deleterange-min-lt-first", Fire: []string{"FD-01"},
 		Edits: []edit{{"wal.go", "	case min <= first: // max >= first implied", "	case min < first: // max >= first implied"}}})
@@ -11,7 +11,7 @@ func init() {
 		Edits: []edit{{"wal.go", "	case max < first || min > last:", "	case max < first:"}}})
 	addMutant(mutant{Name: "fd/deleterange-middle-allowed", Fire: []string{"FD-01"},
 		Edits: []edit{{"wal.go", "		return fmt.Errorf(\"only suffix or prefix ranges may be deleted from log\")", "		return w.truncateTailLocked(min - 1)"}}})
-	addMutant(mutant{Name: "fd/deleterange-tail-arg-min", Fire: []string{"FD-01"},
+	addMutant(mutant{Name: "fd/deleterange-tail-arg-min", Fire: []string{"FD-09"},
 		Edits: []edit{{"wal.go", "		return w.truncateTailLocked(min - 1)\n\n	//    |min----max|\n	// |first========last|", "		return w.truncateTailLocked(min)\n\n	//    |min----max|\n	// |first========last|"}}})
 	addMutant(mutant{Name: "fd/offsetforframe-last-exclusive", Fire: []string{"FD-02"},
 		Edits: []edit{{"segment/writer.go", "idx < w.info.MinIndex || idx > w.LastIndex() {", "idx < w.info.MinIndex || idx >= w.LastIndex() {"}}})
